@@ -61,7 +61,7 @@ def P(s):
 
 D = [DS("A"), DS("B"), DS("C")]
 STREAMS = [
-    D[0].Select(P("lambda e: (e.x, MetaData(e.run, e.lumi))")),      # a user function that happens to be called MetaData: not a wrapper
+    D[0].Select(P("lambda e: (e.x, MetaData(e.run, e.lumi), MetaData(e.jets(), {}, strict=True), MetaData(*e.parts, {}))")),      # user functions that happen to be called MetaData: not wrappers
     D[1].QMetaData({"k": 2}).Select(P("lambda e: e.x")),
     D[0].Select(P("lambda e: e.x")).MetaData({}).MetaData({}).Where(P("lambda e: e.x > 1")).MetaData({}),   # stacked empty wrappers
     D[1].Where(P("lambda e: e.x > 1")).AsAwkwardArray(["c"]),
@@ -76,8 +76,8 @@ BUILT_WITHOUT_EXECUTION = len(LOG) == 0
 
 def strip_empty(n):
     "reference: fresh tree without empty MetaData wrappers"
-    if isinstance(n, ast.Call) and isinstance(n.func, ast.Name) and n.func.id == "MetaData" and len(n.args) == 2 \
-            and isinstance(n.args[1], ast.Dict) and len(n.args[1].keys) == 0:
+    if isinstance(n, ast.Call) and isinstance(n.func, ast.Name) and n.func.id == "MetaData" and len(n.args) == 2 and not n.keywords \
+            and not isinstance(n.args[0], ast.Starred) and isinstance(n.args[1], ast.Dict) and len(n.args[1].keys) == 0:
         return strip_empty(n.args[0])
     if isinstance(n, ast.AST):
         return type(n)(**{f: strip_empty(getattr(n, f, None)) for f in n._fields})
